@@ -15,7 +15,7 @@ const NRUNS: usize = 3; // at most three timestamp runs
 ///
 /// The table value is built WITHOUT the real constructor (it allocates sharded hash tables and pooled row
 /// buffers: 20+ GB in CBMC): only the fields the index kernels read are initialised -- `sort_by`, `offsets`,
-/// `n_keys`, `n_columns` and the row count behind `data.next_row()`.  The value is only ever used through
+/// `n_keys`, `n_columns`, `data.stale_rows` (symbolic) and the row count behind `data.next_row()`.  The value is only ever used through
 /// `&SortedWritesTable` by `fast_subset` / `binary_search_sort_val`, and never dropped.
 struct IndexTable {
     mem: std::mem::MaybeUninit<SortedWritesTable>,
@@ -53,11 +53,13 @@ fn any_index_table() -> (IndexTable, [(u32, u32); NRUNS], usize) {
         std::ptr::addr_of_mut!((*p).offsets).write(offs);
         std::ptr::addr_of_mut!((*p).n_keys).write(1);
         std::ptr::addr_of_mut!((*p).n_columns).write(3);
-        crate::row_buffer::verif_kani::kani_write_total_rows(
-            std::ptr::addr_of_mut!((*p).data.data),
-            3,
-            if len == 0 { 0 } else { NROWS as usize },
-        );
+        let total = if len == 0 { 0 } else { NROWS as usize };
+        crate::row_buffer::verif_kani::kani_write_total_rows(std::ptr::addr_of_mut!((*p).data.data), 3, total);
+        // any number of removed / superseded rows not yet compacted away: the physical row count that the
+        // offsets index is relative to (data.next_row()) differs from the live-row count (len())
+        let stale: usize = kani::any();
+        kani::assume(stale <= total);
+        std::ptr::addr_of_mut!((*p).data.stale_rows).write(stale);
     }
     (it, runs, len)
 }
